@@ -1,5 +1,6 @@
 import PycsepVerif.Proto
 import PycsepVerif.Model.Readers
+import PycsepVerif.Model.ReaderText
 /-
   Driver ops of C19 (records are `;`-separated, fields `~`-separated, `-` = no records, `H` = header line).
     c19_csep   lon~lat~mag~Y~M~D~h~mi~s~us~depth
@@ -11,6 +12,10 @@ import PycsepVerif.Model.Readers
     c19_days Y M D   → daysFromCivil
     c19_valid Y M D  → true/false
     c19_tables       → allowed types, class/loader mapping, ZMAP and HORUS column maps
+    c19_text FMT HEX → the TEXT-level model (`Model/ReaderText.lean`) on the bytes of a whole file (hex, latin-1):
+                       same answer format, or `outside` (file not in the model's domain); NDK events carry the scalar
+                       moment in the magnitude field
+    c19_float HEX    → `float(text)` as exact rational | `ValueError`
 -/
 namespace Drive.C19
 open Proto Readers
@@ -68,7 +73,29 @@ def run {α} (p : Option (List α)) (f : List α → Result) : String :=
   | some rs => showResult (f rs)
   | none => "bad-op"
 
+def hexVal (c : Char) : Nat :=
+  if c.isDigit then c.toNat - 48 else if 'a' ≤ c && c ≤ 'f' then c.toNat - 87 else c.toNat - 55
+
+def unhex : List Char → List Char
+  | a :: b :: t => Char.ofNat (16 * hexVal a + hexVal b) :: unhex t
+  | _ => []
+
+def textModel (fmt : String) (text : List Char) : Option (Option Result) :=
+  match fmt with
+  | "csep-csv" => some (ReaderText.csepFile text)
+  | "zmap" => some (ReaderText.zmapFile text)
+  | "jma-csv" => some (ReaderText.jmaFile text)
+  | "ingv_horus" => some (ReaderText.horusFile text)
+  | "ndk" => some (ReaderText.ndkFile text)
+  | _ => none
+
 def handle : List String → Option String
+  | ["c19_text", fmt, hex] => some (match textModel fmt (unhex hex.toList) with
+      | some (some r) => showResult r | some none => "outside" | none => "bad-op")
+  | ["c19_text", fmt] => some (match textModel fmt [] with
+      | some (some r) => showResult r | some none => "outside" | none => "bad-op")
+  | ["c19_float", hex] => some (match ReaderText.pyFloat (unhex hex.toList) with
+      | some r => showRat r | none => "ValueError")
   | ["c19_csep", s] => some (run (recs? csepLine? s) decodeCsep)
   | ["c19_zmap", s] => some (run (recs? (fun r => r.mapM parseRat?) s) decodeZmap)
   | ["c19_horus", s] => some (run (recs? horusRec? s) decodeHorus)
